@@ -29,6 +29,9 @@ RULE = (
     't. '
     ' In the store part one catalogue write may fail once (and the recordin'
     'g is repeated) before the database is reopened. '
+    ' Versions may be recorded through the worker path (database server); t'
+    'he order parts also use an implementer that overrides _get_ver / _set_'
+    'ver. '
 )
 ASSUMPTIONS = [
     'version components are non-negative ints (documented contract)',
